@@ -8,3 +8,6 @@ pub use self::merkle_tree::*;
 pub mod pm_tree;
 #[cfg(feature = "pmtree-ft")]
 pub use self::pm_tree::*;
+
+#[cfg(zerokit_verif)]
+pub mod verif;
